@@ -826,7 +826,7 @@ func (e *tworunEnv) c17(i int) {
 			case "commentonly":
 				content = []byte("# nothing\n#\n\n")
 			case "badword":
-				content = []byte(rapid.VerifRapidVersion() + "#1\n0x1\n" + pick(r, "0xg", "-1", "18446744073709551616", "1 2", "0x"))
+				content = []byte(rapid.VerifRapidVersion() + "#1\n0x1\n" + pick(r, "0xg", "-1", "18446744073709551616", "1 2", "0x", "0x1fzz", "0x7 0x8", "0x12\n0x3q\n0x4", "0xffffffffffffffffff"))
 			}
 			var err error
 			switch fk {
@@ -841,6 +841,11 @@ func (e *tworunEnv) c17(i int) {
 				e.fatal("%v", err)
 			}
 			class, entry := tworunClassify(path, p, lg)
+			if class != "ignoring" && (fk == "badword" || fk == "commentonly" || fk == "empty" || fk == "wrongversion") {
+				// malformed by construction: the loader must reject it, whatever its words would do
+				e.failf("a malformed fail file ("+fk+") is loaded instead of being ignored", "loadFailFile returns an error", fmt.Sprintf("content %q is accepted (class %q)", string(content), class))
+				class = "ignoring"
+			}
 			if class == "" {
 				continue // the file would reproduce a failure: not an unusable file
 			}
